@@ -53,6 +53,27 @@ def maporder_across_processes(c):
 
 
 CONFIG = {
+    "C15": {
+        "profiles": BOTH,
+        "rule": "one evaluation = one built-in call (variable or literal form); distinct non-trivial = distinct (string, needle) pairs with a string of >= 2 characters, "
+                "distinct (pattern, string) pairs, distinct numeric operands and distinct (function, receiver type) shape rows",
+        "floors": {"quick": {"_evaluations": 1000000, "func/split": 20000, "func/matches": 20000, "regex_invalid": 1000, "regex_valid": 10000, "func/pow": 10000,
+                             "shapes_rejected": 500000, "shapes_accepted": 60},
+                   "thorough": {"_evaluations": 8000000}},
+        "assumptions": ASSUME_COMMON + [
+            "white space: trim* results may strip ASCII or Unicode white space (both readings of the documentation are accepted)",
+            "ceil/floor/round result type is compared numerically; out-of-range doubles: saturated integer, IEEE double or error",
+            "sqrt of a negative integer: NaN or error; empty split delimiter: only the rejoin law; regex semantics are the regex crate's",
+            "a receiver written as first argument (or vice versa) is documented for 'all functions' but implemented for size only: not classified; min/max/zip are variadic and not shape-checked",
+            "double math is compared with host libm within 2 ulp (pow: 1e-12 relative)"],
+        "technique": "runtime monitoring with naive reference implementations (byte-wise scanning), the regex engine called directly, i128 / libm math models and a signature table "
+                     "for receiver/argument shapes; variable and literal form",
+        "level_text": "Strings over a mixed ASCII / multi-byte / case-folding / white-space alphabet up to 10 symbols x needles (empty, single, overlapping, absent, longer, case-changed); "
+                      "splitAt at every byte offset; regex patterns assembled from 26 pieces incl. invalid ones against the engine; every math function over the int/uint/double boundary grids "
+                      "and random operands, pow over grid x exponents; every default function x receiver type x argument type tuples of arity 0..3 (exhaustive over 11 types) and sampled arity 4 "
+                      "must be accepted exactly on its documented shapes. Exploration only.",
+        "level_note": "trusts the naive string algorithms (60 lines), the regex crate and host libm",
+    },
     "C11": {
         "profiles": BOTH,
         "post": [maporder_across_processes],
